@@ -14,9 +14,11 @@ def convert_slice(_slice: Slice) -> Call:
     Convert slice expt to a call of slice function
     to prevent invalid syntax like `__setitem__(0:10:2, value)`
     """
+    from oneliner.reserved_identifiers import ol_builtin
+
     _slice_value = lambda v: Constant(None) if v is None else v
     return Call(
-        func=Name(id="slice", ctx=Load()),
+        func=ol_builtin("slice"),
         args=[
             _slice_value(_slice.lower),
             _slice_value(_slice.upper),
